@@ -160,19 +160,26 @@ class Target:
                 _, globs = self.module()
                 # the statements become the body of a function (they may contain `return`); its locals are the result
                 names = list(st.kwargs)
-                body = list(ex.node.body) + [_ast.parse("return ('__env__', locals())").body[0]]
+                # the final values of the slice's variables are recorded on EVERY way out (fall-through, return, exception)
+                inner = list(ex.node.body) + [_ast.parse("return ('__env__', None)").body[0]]
+                keep = _ast.parse("__holder__.update(locals())").body[0]
+                body = [_ast.Try(body=inner, handlers=[], orelse=[], finalbody=[keep])]
                 fn = _ast.FunctionDef(name='__slice__', args=_ast.arguments(
-                    posonlyargs=[], args=[_ast.arg(arg=n) for n in names], vararg=None, kwonlyargs=[], kw_defaults=[],
-                    kwarg=None, defaults=[]), body=body, decorator_list=[], returns=None, type_comment=None, type_params=[])
+                    posonlyargs=[], args=[_ast.arg(arg=n) for n in names + ['__holder__']], vararg=None, kwonlyargs=[],
+                    kw_defaults=[], kwarg=None, defaults=[]), body=body, decorator_list=[], returns=None, type_comment=None,
+                    type_params=[])
                 code = compile(_ast.fix_missing_locations(_ast.Module(body=[fn], type_ignores=[])),
                                '<slice of %s>' % self.qualname, 'exec')
                 ns = {}
                 exec(code, globs, ns)
-                r = ns['__slice__'](**st.kwargs)
+                holder = {}
+                st.env = holder
+                try:
+                    r = ns['__slice__'](__holder__=holder, **st.kwargs)
+                finally:
+                    holder.pop('__holder__', None)
                 if isinstance(r, tuple) and len(r) == 2 and r[0] == '__env__':
-                    st.env = r[1]
                     return Outcome('return', None)
-                st.env = dict(st.kwargs)
                 return Outcome('return', r)
             free = getattr(st, 'free', None)
             if free:
